@@ -115,5 +115,45 @@ class Rat:
                 continue
             if isinstance(st, (ast.Return, ast.For, ast.While)):
                 return
-            # anything else is ignored only if it does not bind a name of the model
+            if isinstance(st, ast.Assign) and len(st.targets) == 1 and isinstance(st.targets[0], (ast.Tuple, ast.List)) \
+                    and all(isinstance(t, ast.Name) for t in st.targets[0].elts):
+                # a, b = x, y   /   a, b = [f(v) for v in (p, q)]
+                names = [t.id for t in st.targets[0].elts]
+                vals = None
+                v = st.value
+                if isinstance(v, (ast.Tuple, ast.List)) and len(v.elts) == len(names):
+                    vals = list(v.elts)
+                elif isinstance(v, (ast.ListComp, ast.GeneratorExp)) and len(v.generators) == 1 and not v.generators[0].ifs \
+                        and isinstance(v.generators[0].target, ast.Name) and isinstance(v.generators[0].iter, (ast.Tuple, ast.List)) \
+                        and len(v.generators[0].iter.elts) == len(names):
+                    vals = [("comp", v.elt, v.generators[0].target.id, it) for it in v.generators[0].iter.elts]
+                got = []
+                for item in (vals or []):
+                    try:
+                        if isinstance(item, tuple):
+                            saved = self.env.get(item[2], self)
+                            self.env[item[2]] = self.ev(item[3])
+                            try:
+                                got.append(self.ev(item[1]))
+                            finally:
+                                if saved is self:
+                                    self.env.pop(item[2], None)
+                                else:
+                                    self.env[item[2]] = saved
+                        else:
+                            got.append(self.ev(item))
+                    except AnalysisError:
+                        got.append(None)
+                if vals is None:
+                    got = [None] * len(names)
+                for nm, val in zip(names, got):
+                    if val is None:
+                        self.env.pop(nm, None)
+                    else:
+                        self.env[nm] = val
+                continue
+            # anything else: the names it binds are no longer known to the model
+            for n_ in ast.walk(st):
+                if isinstance(n_, ast.Name) and isinstance(n_.ctx, (ast.Store, ast.Del)):
+                    self.env.pop(n_.id, None)
             continue
